@@ -248,6 +248,44 @@ def canonicalise_modules(raw, vocabulary, vocab_fields, strip_lt, log=None):
     return ren
 
 
+def canonicalise_renamed_functions(raw, vocab_sigs, strip_lt, log=None):
+    """A private function that was renamed: a vocabulary function is missing, and in the same parent (module, type or
+    trait impl) exactly one function outside the vocabulary has the identical signature -> it gets the vocabulary
+    name back.  Done before the inlining of non-vocabulary functions."""
+    import re as _re
+    cur = {strip_lt(b["path"]): strip_lt(b.get("sig") or "") for b in raw["bodies"] if b.get("kind") in ("Fn", "AssocFn")}
+    lost = {p: s for p, s in vocab_sigs.items() if p not in cur}
+    new = {p: s for p, s in cur.items() if p not in vocab_sigs}
+    ren = {}
+    parent = lambda p: p.rsplit("::", 1)[0]
+    for lp, ls in lost.items():
+        cands = [np for np, ns in new.items() if parent(np) == parent(lp) and ns == ls and ns]
+        rivals = [lp2 for lp2, ls2 in lost.items() if parent(lp2) == parent(lp) and ls2 == ls]
+        if len(cands) == 1 and len(rivals) == 1:
+            ren[cands[0]] = lp
+    if not ren:
+        return {}
+    # raw paths may carry lifetime arguments (`Type::<'a>::f`): rename by the last segment within the same parent
+    s = json.dumps(raw)
+    for o, n in ren.items():
+        on, nn = o.rsplit("::", 1)[1], n.rsplit("::", 1)[1]
+        par = _re.escape(parent(o)).replace("\\:\\:", "(?:::<[^>]*>)?::")
+        s = _re.sub(r"(%s(?:::<[^>]*>)?::)%s(?![A-Za-z0-9_])" % (par, _re.escape(on)), lambda m: m.group(1) + nn, s)
+    newraw = json.loads(s)
+    raw.clear()
+    raw.update(newraw)
+    if log:
+        log("renamed functions given back their vocabulary names: %s" % ren)
+    return ren
+
+
+def load_vocabulary_sigs():
+    p = os.path.join(os.path.dirname(os.path.abspath(__file__)), "vocabulary_sigs.json")
+    if not os.path.exists(p):
+        return None
+    return json.load(open(p))
+
+
 def canonicalise_fields(raw, vocab_fields, strip_lt, log=None):
     """Struct fields of the crate's own types: a field that was renamed is given back its vocabulary name when its
     type identifies it (exactly one field of that type lost its name and exactly one new name of that type appeared),
